@@ -303,13 +303,9 @@ func (r *AuthnRequest) Redirect(relayState string, sp *ServiceProvider) (*url.UR
 		return nil, err
 	}
 
-	// We can't depend on Query().set() as order matters for signing
-	query := rv.RawQuery
-	if len(query) > 0 {
-		query += "&SAMLRequest=" + url.QueryEscape(requestStr.String())
-	} else {
-		query += "SAMLRequest=" + url.QueryEscape(requestStr.String())
-	}
+	// We can't depend on Query().set() as order matters for signing. The signature
+	// covers only SAMLRequest[&RelayState]&SigAlg, not a query the endpoint already has.
+	query := "SAMLRequest=" + url.QueryEscape(requestStr.String())
 
 	if relayState != "" {
 		query += "&RelayState=" + url.QueryEscape(relayState)
@@ -329,6 +325,9 @@ func (r *AuthnRequest) Redirect(relayState string, sp *ServiceProvider) (*url.UR
 		query += "&Signature=" + url.QueryEscape(base64.StdEncoding.EncodeToString(sig))
 	}
 
+	if len(rv.RawQuery) > 0 {
+		query = rv.RawQuery + "&" + query
+	}
 	rv.RawQuery = query
 
 	return rv, nil
